@@ -347,9 +347,9 @@ def _is_zero(e: ast.AST) -> bool:
     return False
 
 
-def r6_edge_tests(repo: Repo, rep):
-    R = rep.rule("R-C06-6", "polygon normals detect the edge of a point with the closeness test of the boundary's membership predicate: isclose(coordinate, edge value) with the "
-                 "same tolerances; a difference is never compared with zero (that drops the relative tolerance)", floor=3,
+def r6_edge_tests(repo: Repo, rep, records=()):
+    R = rep.rule("R-C06-6", "polygon normals detect the edge of a point with the closeness test of the boundary's membership predicate: isclose(coordinate, edge value) with at "
+                 "least (and at most 100x) the effective tolerance atol + rtol*|value| of that predicate; a difference is never compared with zero (that drops the relative tolerance)", floor=7,
                  why="a boundary point the membership test accepts but no edge test matches accumulates no normal: 0/0 = NaN")
     for mod, cname in (("parallelogram", "ParallelogramBoundary"), ("triangle", "TriangleBoundary")):
         ci = repo.cls(f"{DOM}.domain2D.{mod}.{cname}")
@@ -371,7 +371,20 @@ def r6_edge_tests(repo: Repo, rep):
             tol = tuple(sorted((k.arg, dump(k.value)) for k in c.keywords))
             shifted = _is_zero(tgt) and isinstance(subj, ast.BinOp) and isinstance(subj.op, ast.Sub) and not _is_zero(subj.right)
             rep.check(R, not shifted, fi.site(c), fi.fq, "edge test isclose(coordinate, edge value): the edge value is the reference of the tolerance", dump(c)[:100], "difference compared with zero")
-            rep.check(R, not tol_m or tol in tol_m, fi.site(c), fi.fq, "same tolerances as the membership predicate of this boundary", f"{tol} vs {sorted(tol_m)}", f"tolerances {tol}")
+            if not records:
+                rep.check(R, not tol_m or tol in tol_m, fi.site(c), fi.fq, "same tolerances as the membership predicate of this boundary", f"{tol} vs {sorted(tol_m)}", f"tolerances {tol}")
+        # every edge value the membership test accepts within a tolerance is found by normal() within at least that tolerance - and not a
+        # coarser one by orders of magnitude (a wider test claims points of the neighbouring edge)
+        mine = [r for r in records if r[0] == cname]
+        for c0 in sorted({r[2] for r in mine if "_contains" in r[1] and "normal" not in r[1]}):
+            em = max(r[3] for r in mine if r[2] == c0 and "_contains" in r[1] and "normal" not in r[1])
+            ns = [r for r in mine if r[2] == c0 and "normal" in r[1] and "_contains" not in r[1]]
+            if not ns:
+                continue  # R-C06-7 decides which values normal() tests
+            for r in ns:
+                ok = em <= r[3] <= 100 * em
+                rep.check(R, ok, r[4].site(r[5]), r[4].fq, f"edge value {c0:g}: tolerance of the membership test ({em:g}) <= tolerance in normal() <= 100x that",
+                          f"{r[3]:g}", f"edge value {c0:g}: normal tolerance {r[3]:g} vs membership {em:g}")
         if not normal:
             rep.undecided(R, ci.module.relpath, ci.fq, "isclose edge tests in the normal computation", "none found: idiom not recognised")
 
@@ -475,17 +488,18 @@ def r8_walk_from_zero(repo: Repo, rep):
 
 
 def run(repo: Repo, rep):
+    from .c05 import r8_side_tolerance
+    records = r8_side_tolerance(repo, rep)
     r8_walk_from_zero(repo, rep)
     r7_edge_agreement(repo, rep)
-    r6_edge_tests(repo, rep)
+    r6_edge_tests(repo, rep, records)
     r1_boolean(repo, rep)
     r2_r3_edges(repo, rep)
     r4_orientation(repo, rep)
     r5_single_point(repo, rep)
-    from .c05 import r1_truth_tables, r7_own_columns, r8_side_tolerance  # normals are selected by boundary membership; its Boolean structure must be the set algebra; own coordinates by name; sides found with float32-sized slack
+    from .c05 import r1_truth_tables, r7_own_columns  # normals are selected by boundary membership; its Boolean structure must be the set algebra; own coordinates by name; sides found with float32-sized slack
     r1_truth_tables(repo, rep)
     r7_own_columns(repo, rep)
-    r8_side_tolerance(repo, rep)
 
 
 _U = "src/torchphysics/problem/domains/domainoperations/union.py"
